@@ -831,6 +831,19 @@ fn compute_patch_digest_v2(
     h.finalize().into()
 }
 
+/// Verification-only access to the private digest kernel (feature `echo_verif`).
+#[cfg(feature = "echo_verif")]
+pub(crate) fn verif_patch_digest(
+    policy_id: u32,
+    rule_pack_id: &ContentHash,
+    commit_status: TickCommitStatus,
+    in_slots: &[SlotId],
+    out_slots: &[SlotId],
+    ops: &[WarpOp],
+) -> ContentHash {
+    compute_patch_digest_v2(policy_id, rule_pack_id, commit_status, in_slots, out_slots, ops)
+}
+
 fn encode_slots(h: &mut Hasher, slots: &[SlotId]) {
     h.update(&(slots.len() as u64).to_le_bytes());
     for slot in slots {
